@@ -334,3 +334,44 @@ func vC17History(steps int) {
 	}
 	vReach("C17.history.end")
 }
+
+// ---------- which numbers are reported as complete ----------
+
+func init() {
+	vHarnesses["vH_C17_counters_fullRange"] = vH_C17_counters_fullRange
+	vHarnesses["vH_C17_counters_newFullCounter"] = vH_C17_counters_newFullCounter
+}
+
+// vH_C17_counters_fullRange: from an arbitrary valid state, the reported range [first,last] contains only
+// numbers that are stored and counted for every track, is contiguous (every number in it is stored), and
+// last is the newest complete number.
+func vH_C17_counters_fullRange() {
+	s := vMkCounters(vW)
+	vAssume(vCountersInv(s, vW))
+	nrTracks := uint32(vInt("nrTracks", 1, 3))
+	q := uint32(vInt("q", 0, 1<<20)) // probe
+	first, last := s.fullRange(nrTracks)
+	vAssert("C17.fullRange.ordered", first <= last)
+	if last != 0 || first != 0 {
+		if q >= first && q <= last {
+			vAssert("C17.fullRange.every-number-complete", vCnt(s, q) >= int(nrTracks))
+		}
+		if q > last {
+			vAssert("C17.fullRange.last-is-newest-complete", vCnt(s, q) < int(nrTracks))
+		}
+	}
+	vReach("C17.fullRange.end")
+}
+
+func vH_C17_counters_newFullCounter() {
+	s := vMkCounters(vW)
+	vAssume(vCountersInv(s, vW))
+	nrTracks := uint32(vInt("nrTracks", 1, 3))
+	maxSeq := uint32(vInt("maxSeq", 0, 1<<20))
+	r := s.newFullCounter(nrTracks, maxSeq)
+	if r != 0 {
+		vAssert("C17.newFullCounter.is-newer", r > maxSeq)
+		vAssert("C17.newFullCounter.is-complete", vCnt(s, r) >= int(nrTracks))
+	}
+	vReach("C17.newFullCounter.end")
+}
